@@ -7,7 +7,7 @@ _inventory_altered, _generate_inventory_delta, apply) and
 breezy/git/transform.py (the same for git trees, _generate_index_changes).
 
 T1: the key set of CONFLICT_RESOLVERS, the pass count of resolve_conflicts and
-    five code-variant flags (does InventoryPreviewTree.get_file /
+    six code-variant flags (does InventoryPreviewTree.get_file /
     PreviewTree.is_executable read an unmodified entry at its tree path; do the
     resolvers subscript by_parent()) are read from the source with `ast` and
     written to Generated/C14.lean; Props/C14T1.lean proves that the model has a
@@ -159,8 +159,10 @@ def source_facts():
                                                        for c in ast.walk(n))
                          and not any(isinstance(c, ast.Call) and getattr(c.func, "attr", None) == "delete_contents" for c in ast.walk(n))
                          for n in ast.walk(rd))
+    rpl = _func(t, "resolve_parent_loop")
+    loop_guarded = _mentions(rpl, "tree_path") or _mentions(rpl, "_tree_id_paths")
     return dict(keys=keys, passes=passes, data_bzr=data_bzr, exec_by_tree=exec_by_tree, children_get=children_get,
-                cancel_guarded=cancel_guarded)
+                cancel_guarded=cancel_guarded, loop_guarded=loop_guarded)
 
 
 def extract(ctx):
@@ -175,12 +177,12 @@ def extract(ctx):
             "/-- `for n in range(N)` in `resolve_conflicts` -/\n"
             "def sourcePassCount : Nat := %d\n"
             "/-- code variant found in the source (bzr trees) -/\n"
-            "def sourceFlagsBzr : Flags := { git := false, dataByTreePath := %s, execByTreePath := %s, childrenGet := %s, cancelGuarded := %s }\n"
+            "def sourceFlagsBzr : Flags := { git := false, dataByTreePath := %s, execByTreePath := %s, childrenGet := %s, cancelGuarded := %s, loopGuarded := %s }\n"
             "/-- code variant found in the source (git trees; GitPreviewTree.get_file reads the tree path) -/\n"
-            "def sourceFlagsGit : Flags := { git := true, dataByTreePath := true, execByTreePath := %s, childrenGet := %s, cancelGuarded := %s }\n"
+            "def sourceFlagsGit : Flags := { git := true, dataByTreePath := true, execByTreePath := %s, childrenGet := %s, cancelGuarded := %s, loopGuarded := %s }\n"
             "end BreezyVerif.C14\n" % (", ".join(ex.lean_str(k) for k in f["keys"]), f["passes"],
-                                        b(f["data_bzr"]), b(f["exec_by_tree"]), b(f["children_get"]), b(f["cancel_guarded"]),
-                                        b(f["exec_by_tree"]), b(f["children_get"]), b(f["cancel_guarded"])))
+                                        b(f["data_bzr"]), b(f["exec_by_tree"]), b(f["children_get"]), b(f["cancel_guarded"]), b(f["loop_guarded"]),
+                                        b(f["exec_by_tree"]), b(f["children_get"]), b(f["cancel_guarded"]), b(f["loop_guarded"])))
     ex.write_if_changed(os.path.join(env.VERIF, "lean/BreezyVerif/Generated/C14.lean"), text)
     ctx.extra["source_facts"] = f
     return "resolver keys=%d passes=%d flags=%s" % (len(f["keys"]), f["passes"], _flags("2a", f))
@@ -197,8 +199,8 @@ def _facts(ctx):
 def _flags(fmt, f):
     tf = lambda x: "T" if x else "F"
     if fmt == "git":
-        return "T" + "T" + tf(f["exec_by_tree"]) + tf(f["children_get"]) + tf(f["cancel_guarded"])
-    return "F" + tf(f["data_bzr"]) + tf(f["exec_by_tree"]) + tf(f["children_get"]) + tf(f["cancel_guarded"])
+        return "T" + "T" + tf(f["exec_by_tree"]) + tf(f["children_get"]) + tf(f["cancel_guarded"]) + tf(f["loop_guarded"])
+    return "F" + tf(f["data_bzr"]) + tf(f["exec_by_tree"]) + tf(f["children_get"]) + tf(f["cancel_guarded"]) + tf(f["loop_guarded"])
 
 
 # --------------------------------------------------------------------------
